@@ -15,7 +15,7 @@ TB = [
     "sqlite3, zipfile, json, csv, the file system; LCA/SQLite candidate order (Counter.most_common / ORDER BY ties) is not modelled: results are compared as multisets, best-only results as 'sub-multiset containing every maximal element'",
 ]
 AS = [
-    "theorems about sketch contents (linear_score_spec, sbt_eq_brute, prefetch_bp_semantics_partial) are for flat scaled sketches with scaled in 1..2^31 (C03's exact range); num sketches and abundance-tracking subjects are covered structurally (linear_eq_brute, bestOnly, search_sorted) and by the correspondence run",
+    "theorems about sketch contents (linear_score_spec, sbt_eq_brute, sqlite_eq_brute, lca_eq_brute, *_bestOnly, prefetch_bp_semantics_partial) are for flat scaled sketches with scaled in 1..2^31 (C03's exact range), and linear_score_spec_num for flat num sketches; abundance-tracking subjects (the flatten() step) and SBTs over num sketches are covered structurally (linear_eq_brute, bestOnly, search_sorted) and by the correspondence run",
     "prefetch float/integer equivalence (bp_threshold_exact) is proved for threshold_bp <= 2^50, scaled and query size < 2^53",
     "the indexed containers (SBT, LCA_Database, SqliteIndex) are queried as the command line does: select(ksize, moltype, num, scaled, containment) first -- that is where their refusals are documented; list-like containers are queried directly",
     "exact duplicates (same name and same hashes twice) only in the in-memory containers: what a file format stores is C10's subject; mixtures of num and scaled sketches in one list are left to C12 (select)",
